@@ -21,7 +21,7 @@ theorem tcFunc_ok {P : Prog} {self : Option Nat} {fd : FuncDef} {recs : Recs} (h
     FuncOK P recs self fd := by
   unfold tcFunc at h
   simp only [bind_ok, req_ok] at h
-  obtain ⟨r, hr, _, hbc, h2⟩ := h
+  obtain ⟨r, hr, _, _, _, hbc, h2⟩ := h
   simp only [Bool.and_eq_true, List.isEmpty_iff] at hbc
   refine ⟨r, hr, ?_, ?_, hbc.1, hbc.2⟩
   · cases h1 : r.out with
